@@ -494,3 +494,74 @@ def stage_blocking_cases(pid, tier, seed, d, binp, st, ctx):
                 samples=[{"stage": "blocking_cases", "case": runnable[0]["cfg"], "model": runnable[0]["res"]}],
                 nontrivial_keys=["blk_" + "_".join(k) for k in model if next(iter(model[k]))[0] != "panic"
                                  and ((k[2] == only_mode) if only_mode else ((k[5] == "erased") == (pid == "C16")))])
+
+
+REPO_TEST_ENV = {"CARGO_TARGET_DIR": "/verif/harness/target_repotests", "CARGO_NET_OFFLINE": "true",
+                 "RUSTFLAGS": "--cfg rsactor_verif --check-cfg cfg(rsactor_verif)"}
+# two tests of the repository's suite park a handler for 120 s and then wait for the actor: thorough tier only
+REPO_TEST_SLOW = ["blocking_timeout_expiry_tests"]
+
+
+def stage_repo_tests(pid, tier, seed, d, binp, st, ctx):
+    """Implementation -> specification with the repository's OWN test suite as the driver: the suite is built from /repo's
+    working tree with the lifecycle hooks on, every actor of every test logs its lifecycle events, and TLC (LifeTrace.tla)
+    checks each actor's event sequence against the lifecycle of the specification.  Test verdicts are not looked at."""
+    tr = os.path.join(d, "life_trace.ndjson")
+    if os.path.exists(tr):
+        os.remove(tr)
+    env = dict(os.environ); env.update(REPO_TEST_ENV); env["RSACTOR_VERIF_TRACE"] = tr
+    cmd = ["cargo", "test", "--workspace", "--offline", "--locked", "--all-features", "--tests", "--no-fail-fast", "--", "--test-threads", "8"]
+    if tier == "quick":
+        for t in REPO_TEST_SLOW:
+            cmd += ["--skip", t]
+    p = subprocess.run(cmd, cwd="/repo", env=env, text=True, stdout=subprocess.PIPE, stderr=subprocess.STDOUT, timeout=3600)
+    out = p.stdout or ""
+    if "error: could not compile" in out or "error[E" in out:
+        open(os.path.join(d, "repo_tests.out"), "w").write(out[-30000:])
+        raise ctx["ToolError"]("the repository's test suite does not build with the hooks on (see repo_tests.out)")
+    ntests = sum(int(x) for x in re.findall(r"test result: \w+\. (\d+) passed", out))
+    nfail = sum(int(x) for x in re.findall(r"test result: \w+\. \d+ passed; (\d+) failed", out))
+    if not os.path.exists(tr) or ntests == 0:
+        open(os.path.join(d, "repo_tests.out"), "w").write(out[-30000:])
+        raise ctx["ToolError"]("the repository's test suite produced no lifecycle trace (see repo_tests.out)")
+    # sort by process, then ticket (several test binaries append to the same file)
+    evs = [json.loads(l) for l in open(tr) if l.startswith("{")]
+    evs.sort(key=lambda e: (e["pid"], e["t"]))
+    with open(tr, "w") as f:
+        for e in evs:
+            f.write(json.dumps(e) + "\n")
+    open(os.path.join(d, "LifeTrace.cfg"), "w").write("SPECIFICATION Spec\nPOSTCONDITION Consumed\nCHECK_DEADLOCK FALSE\n")
+    e2 = dict(os.environ); e2["TRACE"] = tr
+    e2["JAVA_TOOL_OPTIONS"] = "-Xss1g -Dtlc2.tool.queue.IStateQueue=StateDeque"
+    q = subprocess.run(JAVA[:2] + ["-Xmx4g"] + JAVA[4:] + ["-workers", "1", "-metadir", os.path.join(d, "meta_life"), "-noGenerateSpecTE",
+                        "-config", "LifeTrace.cfg", "LifeTrace.tla"], cwd=d, env=e2, text=True,
+                       stdout=subprocess.PIPE, stderr=subprocess.STDOUT, timeout=1800)
+    o = q.stdout or ""
+    if "LIFECHECKED" not in o:
+        open(os.path.join(d, "LifeTrace.out"), "w").write(o)
+        raise ctx["ToolError"]("LifeTrace check did not complete (see LifeTrace.out)")
+    props = set(st.get("props", [pid]))
+    bads = []
+    for line in o.splitlines():
+        if "LIFEBAD" in line:
+            for (pp, why) in re.findall(r'<<\\?"(C\d\d)\\?", \\?"([^"\\]*)', line):
+                bads.append((pp, why, line))
+    mine = [b for b in bads if b[0] in props]
+    viol = []
+    for i, (pp, why, line) in enumerate(mine[:10]):
+        m = re.search(r'LIFEBAD\\?", (\d+), (\d+)', line)
+        key = (int(m.group(1)), int(m.group(2))) if m else None
+        hist = [e for e in evs if key and (e["pid"], e["id"]) == key]
+        rp = ctx["save_replay"](pid, "repo_tests", i, None, hist, [line[:600]])
+        viol.append(("repo_tests", i, pp, why + " (an actor of the repository's own test suite; events in the replay file)", rp))
+    actors = len({(e["pid"], e["id"]) for e in evs})
+    other = sorted({b[0] for b in bads} - props)
+    if other:
+        ctx["log"]("note: the repository-test trace also breaks rules of %s (not this check's property)" % other)
+    ctx["log"]("repository test suite with hooks: %d tests (%d failed), %d actors, %d lifecycle events, LifeTrace violations of %s: %d"
+               % (ntests, nfail, actors, len(evs), sorted(props), len(mine)))
+    return dict(coverage={"repo_tests_run": ntests, "repo_tests_failed": nfail, "actors": actors, "events": len(evs),
+                          "slow_tests_skipped": REPO_TEST_SLOW if tier == "quick" else []},
+                violations=viol, traces=actors,
+                samples=[{"stage": "repo_tests", "first_events": evs[:6]}],
+                nontrivial_keys=["life_actor_%d" % i for i in range(min(actors, 2000))])
